@@ -68,7 +68,10 @@ def scanon (d : Dur) : Bool := canonP d.c d.ns
     (`some` duration + scale name, or `none` for an error) -/
 def judgeBuild (y mo d h mi s ns : Int) (ts : TS) (res : Option (Dur × String)) : String :=
   let date : Date := ⟨y, mo, d⟩
-  let acc := mustAccept iersLeapDates date h mi s ns
+  -- 1971-12-31T23:59:60 is left open (audit 3): 1972-01-01 is the table's first entry (the initial 10 s), so the date
+  -- "immediately precedes an entry of the table" (not must-reject) but no leap second was inserted on it (not must-accept)
+  let open71 := decide (date = ⟨1971, 12, 31⟩ ∧ s = 60)
+  let acc := mustAccept iersLeapDates date h mi s ns && !open71
   let rej := mustReject iersLeapDates date h mi s ns
   match res with
   | some (e, tsn) =>
